@@ -256,6 +256,106 @@ def extraction_case(ctx, tmpdir):
     os.unlink(path)
 
 
+def bootinfo_case(ctx, tmpdir):
+    """files carrying an El Torito boot info table: extraction returns exactly the file's bytes (table patched into
+    [8, 64) and cut at the end of the file), before and after mastering, for every block size"""
+    import struct
+    import pycdlib
+    rng = ctx.rng
+    n = rng.choice([5, 8, 9, 20, 40, 56, 63, 64, 65, 100, 2048, 3000])
+    data = content(77, n)
+    iso = pycdlib.PyCdlib()
+    iso.new(interchange_level=3)
+    iso.add_fp(io.BytesIO(content(78, 2500)), 2500, iso_path='/OTHER.;1')
+    iso.add_fp(io.BytesIO(data), n, iso_path='/BOOT.;1')
+    iso.add_eltorito('/BOOT.;1', boot_info_table=True, boot_load_size=4)
+    rp = {'kind': 'bootinfo', 'seed_case': ctx.case_seed}
+
+    def check(obj, stage, raw):
+        for bs in (1, 7, rng.choice([16, 55, 56, 57, 64]), 2048, 8192):
+            out = io.BytesIO()
+            try:
+                obj.get_file_from_iso_fp(out, iso_path='/BOOT.;1', blocksize=bs)
+            except Exception as e:  # noqa
+                ctx.violation('C16.bootinfo/%s/raises' % stage, 'get_file_from_iso_fp of a boot-info-table file (%d bytes, %s) raised %r' % (n, stage, e), rp)
+                return
+            got = out.getvalue()
+            ctx.count(key=('bootinfo', stage, n, bs), nontrivial=True, kind='bootinfo:' + stage)
+            if len(got) != n:
+                ctx.violation('C16.bootinfo/length', 'boot-info-table file of %d bytes extracts as %d bytes (%s, blocksize %d)' % (n, len(got), stage, bs), rp)
+            elif got[:8] != data[:8] or got[64:] != data[64:]:
+                ctx.violation('C16.bootinfo/content', 'bytes outside the boot info table differ (%d-byte file, %s, blocksize %d)' % (n, stage, bs), rp)
+            elif raw is not None and got != raw:
+                ctx.violation('C16.bootinfo/table', 'extracted bytes differ from the bytes recorded in the image (%d-byte file, blocksize %d)' % (n, bs), rp)
+            elif n >= 24:
+                pvd_ext, file_ext, ln = struct.unpack_from('<LLL', got, 8)
+                if pvd_ext != 16 or ln != n:
+                    ctx.violation('C16.bootinfo/table', 'boot info table says pvd %d, length %d for a %d-byte file (%s)' % (pvd_ext, ln, n, stage), rp)
+    check(iso, 'unwritten', None)
+    path = os.path.join(tmpdir, 'b.iso')
+    iso.write(path)
+    check(iso, 'after-write', None)
+    iso.close()
+    iso2 = pycdlib.PyCdlib()
+    iso2.open(path)
+    rec = iso2.get_record(iso_path='/BOOT.;1')
+    with open(path, 'rb') as f:
+        f.seek(rec.extent_location() * 2048)
+        raw = f.read(n)
+    check(iso2, 'written', raw)
+    iso2.close()
+    os.unlink(path)
+
+
+class MarkSink:
+    """a write-only sink for multi-GiB extractions: keeps only the bytes at the marked offsets"""
+    def __init__(self, marks, width):
+        self.pos, self.marks, self.width, self.seen, self.nonzero = 0, marks, width, {m: bytearray(width) for m in marks}, 0
+
+    def write(self, b):
+        n = len(b)
+        for m in self.marks:
+            lo, hi = max(m, self.pos), min(m + self.width, self.pos + n)
+            if lo < hi:
+                self.seen[m][lo - m:hi - m] = b[lo - self.pos:hi - self.pos]
+        self.pos += n
+        return n
+
+
+def multiextent_case(ctx, tmpdir):
+    """a file of more than 0xfffff800 bytes added by name (the library opens it itself): every extent must be read from
+    its own offset.  The source is a sparse file with markers; nothing of that size is written."""
+    import pycdlib
+    size = 0xfffff800 + 5 * 2048 + 17
+    marks = {0: b'HEAD-OF-FILE....', 0xfffff800 - 16: b'END-OF-EXTENT-1.', 0xfffff800: b'START-OF-EXTENT2', size - 16: b'TAIL-OF-THE-FILE'}
+    src = os.path.join(tmpdir, 'big.bin')
+    with open(src, 'wb') as f:
+        f.truncate(size)
+        for off, m in marks.items():
+            f.seek(off)
+            f.write(m)
+    rp = {'kind': 'multiextent', 'seed_case': ctx.case_seed}
+    iso = pycdlib.PyCdlib()
+    try:
+        iso.new(interchange_level=3)
+        iso.add_file(src, iso_path='/BIG.;1')
+        sink = MarkSink(sorted(marks), 16)
+        iso.get_file_from_iso_fp(sink, iso_path='/BIG.;1', blocksize=8 * 1024 * 1024)
+        ctx.count(key=('multiextent', size), nontrivial=True, kind='extract:multi-extent')
+        if sink.pos != size:
+            ctx.violation('C16.multiextent/length', 'extraction of a %d-byte two-extent file produced %d bytes' % (size, sink.pos), rp)
+        for off, m in marks.items():
+            if bytes(sink.seen[off]) != m:
+                ctx.violation('C16.multiextent/content', 'offset %#x of a two-extent file reads %r, the file has %r' % (off, bytes(sink.seen[off]), m), rp)
+                break
+    finally:
+        try:
+            iso.close()
+        except Exception:  # noqa
+            pass
+        os.unlink(src)
+
+
 def copy_corr(ctx):
     from pycdlib import utils
     rng = ctx.rng
@@ -300,6 +400,16 @@ def run(ctx):
                 extraction_case(ctx, tmpdir)
             finally:
                 ctx.rng = saved
+        for i in range(14 if ctx.quick else 120):
+            ctx.case_seed = ctx.rng.randrange(2 ** 62)
+            sub = type(ctx.rng)(ctx.case_seed)
+            saved, ctx.rng = ctx.rng, sub
+            try:
+                bootinfo_case(ctx, tmpdir)
+            finally:
+                ctx.rng = saved
+        ctx.case_seed = 0
+        multiextent_case(ctx, tmpdir)
         copy_corr(ctx)
     finally:
         shutil.rmtree(tmpdir, ignore_errors=True)
@@ -314,6 +424,10 @@ def replay(ctx, obj):
         ctx.rng = random.Random(ctx.case_seed)
         if r.get('kind') == 'stream':
             one_case(ctx, tmpdir)
+        elif r.get('kind') == 'bootinfo':
+            bootinfo_case(ctx, tmpdir)
+        elif r.get('kind') == 'multiextent':
+            multiextent_case(ctx, tmpdir)
         else:
             extraction_case(ctx, tmpdir)
     finally:
